@@ -139,7 +139,9 @@ func (r *Rtmp2RtspRemuxer) FeedRtmpMsg(msg base.RtmpMsg) {
 				Log.Assert(nil, err)
 			} else if msg.IsHevcKeySeqHeader() {
 				if msg.IsEnhanced() {
-					r.vps, r.sps, r.pps, err = hevc.ParseVpsSpsPpsFromEnhancedSeqHeader(msg.Payload)
+					// the parser returns slices of the buffer it is given, and msg.Payload belongs to the caller (the rtmp
+					// chunk composer reuses it for the next message): parse a copy, as the aac branch below does
+					r.vps, r.sps, r.pps, err = hevc.ParseVpsSpsPpsFromEnhancedSeqHeader(msg.Clone().Payload)
 				} else {
 					r.vps, r.sps, r.pps, err = hevc.ParseVpsSpsPpsFromSeqHeader(msg.Payload)
 				}
